@@ -23,10 +23,21 @@ def run (t : List String) : String :=
   -- CA rotation: the restarted server is configured with CA 1; the client (certificate from CA 0, configured with CA 0)
   -- and the server's own certificate (from CA 0) are as before. Whatever TLS state the client kept, admission is decided
   -- by the configuration of the server it talks to now.
+  -- the CA file a client names was replaced (CA 1 now): the client built afterwards is configured with CA 1, whatever an
+  -- earlier client of the process read from that path (same case as `wrongca`, reached by a different history)
+  | ["cafile", s] => if handshake 0 1 (.signedBy 0 "localhost") (ident s) then "accept" else "refuse"
   | ["rotate", _] => if handshake 1 0 (.signedBy 0 "localhost") (.signedBy 0 "localhost") then "accept" else "refuse"
   -- a server certified by CA 1 that pads its chain with CA 0's certificate is still certified by CA 1
   | [c, "otherca+chain"] => if handshake 0 0 (ident c) (.signedBy 1 "localhost") then "accept" else "refuse"
+  -- (child side of `tlsd`) a server started with its default arguments verifies clients against the CA next to its certificate
+  | ["default", c] => if handshake 0 0 (ident c) (.signedBy 0 "localhost") then "accept" else "refuse"
   | [c, s] => if handshake 0 0 (ident c) (ident s) then "accept" else "refuse"
+  | _ => "bad-op"
+
+/-- `tlsd <client identity>`: see `default` above -/
+def runDefault (t : List String) : String :=
+  match t with
+  | [c] => run ["default", c]
   | _ => "bad-op"
 
 end Driver.Tls
